@@ -743,7 +743,6 @@ class _Parity:
     shape = ()
 
 
-numbers.Number.register(SymBool)
 numbers.Number.register(BoolCount)
 numbers.Number.register(_Parity)
 
@@ -779,6 +778,10 @@ def decide(expr):
     if z3.is_false(expr):
         return False
     tier2 = P.tier2_depth > 0
+    memo = P.__dict__.setdefault("_decided", {})
+    hk = expr.hash()
+    if hk in memo and z3.eq(memo[hk][0], expr):
+        return memo[hk][1]
     if P.pos < len(P.decisions):
         d = P.decisions[P.pos]
         P.pos += 1
@@ -806,6 +809,7 @@ def decide(expr):
         P.pos += 1
     c = expr if d else z3.Not(expr)
     (P.order_conds if tier2 else P.conds).append(c)
+    memo[hk] = (expr, d)
     return d
 
 
